@@ -205,6 +205,8 @@ func workloads() []workload {
 		{"heightmap", "toolbox3d.HeightMap.AddSpheresSDF worker pool", wHeightMap},
 		{"obj-builders", "model3d.Build*OBJ and CoordColorFunc.QuantizedTriangleColor worker pools", wOBJ},
 		{"first-use", "concurrent first calls of independent library entry points in a fresh process (package-level lazy state)", wFirstUse},
+		{"first-use-bezier", "model2d.BezierCurve.Eval / CachedEvalX of high-degree curves, first evaluations of each degree made concurrently in a fresh process", wFirstUseBezier},
+		{"joined-shared-child", "model3d.NewJoinedCollider: several goroutines build and query their own join over one shared child collider", wJoinedSharedChild},
 	}
 }
 
@@ -853,5 +855,101 @@ func wFirstUse(w *wctx) {
 			w.behav(calls[which[g]].name+"/concurrent-first-use-equals-sequential", fmt.Sprintf("result of a concurrent first call differs from the same call made sequentially afterwards (lengths %d vs %d)", len(got[g]), len(want)))
 		}
 	}
+	w.ops(49)
+}
+
+// wFirstUseBezier: curves with 14-20 control points (beyond the degrees a process normally has seen)
+// are evaluated for the first time by all goroutines at once. The reference is the harness's own
+// de Casteljau evaluation, so that no library call precedes the concurrent phase.
+func wFirstUseBezier(w *wctx) {
+	type job struct {
+		ctrl []model2d.Coord
+		ts   []float64
+	}
+	jobs := make([]job, w.gos)
+	for g := range jobs {
+		n := 14 + (g+int(w.seed%5))%7
+		var ctrl []model2d.Coord
+		for i := 0; i < n; i++ {
+			ctrl = append(ctrl, model2d.XY(float64(i)+0.3*w.rng.Float64(), w.rng.NormFloat64()))
+		}
+		jobs[g] = job{ctrl, []float64{w.rng.Float64(), w.rng.Float64(), w.rng.Float64()}}
+	}
+	deCasteljau := func(ctrl []model2d.Coord, t float64) model2d.Coord {
+		pts := append([]model2d.Coord{}, ctrl...)
+		for k := len(pts) - 1; k > 0; k-- {
+			for i := 0; i < k; i++ {
+				pts[i] = pts[i].Scale(1 - t).Add(pts[i+1].Scale(t))
+			}
+		}
+		return pts[0]
+	}
+	got := make([][]model2d.Coord, w.gos)
+	w.parallel(w.gos, func(g int, _ *rand.Rand) {
+		b := model2d.BezierCurve(jobs[g].ctrl)
+		for _, t := range jobs[g].ts {
+			got[g] = append(got[g], b.Eval(t))
+		}
+		w.ops(len(jobs[g].ts))
+	})
+	for g := range got {
+		for i, t := range jobs[g].ts {
+			want := deCasteljau(jobs[g].ctrl, t)
+			if got[g][i].Dist(want) > 1e-6*(1+want.Norm()) {
+				w.behav("model2d.BezierCurve.Eval/concurrent-first-use-equals-de-casteljau", fmt.Sprintf("%d control points, t=%g: %v, de Casteljau gives %v", len(jobs[g].ctrl), t, got[g][i], want))
+				return
+			}
+		}
+	}
+	w.ops(49)
+}
+
+// wJoinedSharedChild: one joined collider is the first child of several new joins, built
+// concurrently, each with its own extra member inside the shared child's bounds. Building a join
+// must not write to its children; afterwards every join answers for exactly its own members.
+func wJoinedSharedChild(w *wctx) {
+	var baseMembers []model3d.Collider
+	nb := 3 + int(w.seed%6)
+	// a frame of spheres spanning the bounds, so that the markers do not extend them
+	for i := 0; i < nb; i++ {
+		c := model3d.XYZ(float64(i%2)*10, float64((i/2)%2)*10, float64((i/4)%2)*10)
+		baseMembers = append(baseMembers, &model3d.Sphere{Center: c, Radius: 0.5})
+	}
+	baseMembers = append(baseMembers, &model3d.Sphere{Center: model3d.XYZ(10, 10, 10), Radius: 0.5})
+	base := model3d.NewJoinedCollider(baseMembers)
+	markers := make([]*model3d.Sphere, w.gos)
+	for g := range markers {
+		markers[g] = &model3d.Sphere{Center: model3d.XYZ(2+6*w.rng.Float64(), 2+6*w.rng.Float64(), 2+6*w.rng.Float64()), Radius: 0.05 + 0.1*w.rng.Float64()}
+	}
+	joins := make([]model3d.Collider, w.gos)
+	w.parallel(w.gos, func(g int, _ *rand.Rand) {
+		joins[g] = model3d.NewJoinedCollider([]model3d.Collider{base, markers[g]})
+		w.ops(1)
+	})
+	// queries after all joins exist (sequentially and then concurrently)
+	check := func(g int) {
+		m := markers[g]
+		ray := &model3d.Ray{Origin: m.Center.Add(model3d.XYZ(0.013, 0.021, -20)), Direction: model3d.Z(1)}
+		want, _ := m.FirstRayCollision(ray)
+		got, ok := joins[g].FirstRayCollision(ray)
+		// the ray may also hit a frame sphere first only if it passes within 0.5 of a frame centre: markers are >= 1.4 away in x,y
+		if !ok || got.Scale != want.Scale {
+			w.behav("model3d.NewJoinedCollider/join-answers-for-its-own-members", fmt.Sprintf("join %d: first hit of a ray through its own marker is (%v, %v), the marker alone gives %v", g, got.Scale, ok, want.Scale))
+		}
+		for h := range markers {
+			if h != g && markers[h].Center.Dist(m.Center) > markers[h].Radius+m.Radius+0.3 {
+				if joins[g].SphereCollision(markers[h].Center, 1e-3) && !base.SphereCollision(markers[h].Center, 1e-3) {
+					w.behav("model3d.NewJoinedCollider/join-answers-for-its-own-members", fmt.Sprintf("join %d touches the marker of join %d", g, h))
+				}
+			}
+		}
+	}
+	for g := range joins {
+		check(g)
+	}
+	w.parallel(w.gos, func(g int, _ *rand.Rand) {
+		check(g)
+		w.ops(10)
+	})
 	w.ops(49)
 }
